@@ -283,6 +283,37 @@ def run_shard(ctx):
         gd, pad = gg.embed_wide(core, rng, rng.randint(10, 14))
         classes["wide:" + cls] = classes.get("wide:" + cls, 0) + 1
         run_case(ctx, gd, doms, out, cond, rng, wrapper=(0, 1)[i % 2], cards={w: 1 for w in pad})
+    # two small planted families, every sign combination / many insertion orders
+    #  (i) w -> x -> y, w <-> x, x <-> y with [y_x, x_w, w]: three members of one district whose subscripts and values chain
+    # (ii) a bidirected chain a <-> b <-> c <-> d (<-> e): P*(a | the rest), the ancestral sets are joined only by the chain
+    for i in range(ctx.share({"quick": 640, "thorough": 6000}[ctx.tier])):
+        if i % 2 == 0:
+            nm = gg.names(3, rng, unsorted=rng.random() < 0.3)
+            rng.shuffle(nm)
+            w, x, y = nm
+            gd = {"nodes": rng.sample(nm, 3), "di": [[w, x], [x, y]], "bi": [[w, x], [x, y]], "hostile": "planted-chained-district"}
+            v = lambda: rng.random() < 0.5  # noqa: E731
+            out = [[y, [[x, v()]], v()], [x, [[w, v()]], v()], [w, [], v()]]
+            if rng.random() < 0.3:
+                out = out[:2]
+            cond = []
+            cls = "planted_chained_district"
+        else:
+            k = rng.choice([4, 4, 5])
+            nm = gg.names(k, rng, unsorted=rng.random() < 0.3)
+            rng.shuffle(nm)
+            bi = [[a, b] for a, b in zip(nm, nm[1:])]
+            rng.shuffle(bi)
+            bi = [e if rng.random() < 0.5 else e[::-1] for e in bi]
+            gd = {"nodes": rng.sample(nm, k), "di": [], "bi": bi, "hostile": "planted-bidirected-chain"}
+            v = lambda: rng.random() < 0.5  # noqa: E731
+            out = [[nm[0], [], v()]]
+            cond = [[n, [], v()] for n in nm[1:]]
+            rng.shuffle(cond)
+            cls = "planted_bidirected_chain"
+        doms = [{"population": "pi*", "transport": [], "policy": []}] if i % 3 else random_domains(rng, gd)
+        classes[cls] = classes.get(cls, 0) + 1
+        run_case(ctx, gd, doms, out, cond, rng, wrapper=(0, 0, 1)[i % 3])
     # deeply nested districts: IDENTIFY has to peel the district d+1 times before it reaches Q[{C}] (C17's family)
     from .c17 import nested_district
 
